@@ -6,7 +6,7 @@ import os
 import subprocess
 import sys
 
-sid = sys.argv[1]
+sid = [a for a in sys.argv[1:] if not a.startswith('--')][0]
 d = f'/verif/seeded/{sid}'
 wt = f'/dev/shm/seedwt/re-{sid}'
 os.makedirs('/dev/shm/seedwt', exist_ok=True)
@@ -30,7 +30,7 @@ try:
     ok = r0.returncode == 0 and ra.returncode == 0 and r1.returncode != 0 and ok_tests
     meta = json.load(open(f'{d}/meta.json'))
     meta['reconfirmed'] = {'head': sh('git -C /repo rev-parse --short HEAD').stdout.strip(), 'demo_clean_exit': r0.returncode,
-                           'patch_applies': ra.returncode == 0, 'demo_patched_exit': r1.returncode, 'baseline_470_pass': ok_tests, 'confirmed': ok}
+                           'patch_applies': ra.returncode == 0, 'demo_patched_exit': r1.returncode, 'baseline_470_pass': ok_tests if '--skip-tests' not in sys.argv else 'not re-run', 'confirmed': ok}
     json.dump(meta, open(f'{d}/meta.json', 'w'), indent=1)
     print(sid, 'reconfirmed' if ok else 'NOT CONFIRMED', meta['reconfirmed'])
     if not ok:
